@@ -37,6 +37,38 @@ pub fn ids() -> Vec<ResourceId> {
     v
 }
 
+/// one more resource of every type under a non-zero dynamic id: no provided system-data type may
+/// ever touch these (typed accessors mean dynamic id 0)
+pub fn sib_dyn(n: usize) -> u64 {
+    if n % 2 == 0 {
+        1 << 32
+    } else {
+        1
+    }
+}
+
+pub fn sib_ids() -> Vec<ResourceId> {
+    let mut v = vec![];
+    macro_rules! push { ($($n:literal),*) => { $( v.push(ResourceId::new_with_dynamic_id::<R<$n>>(sib_dyn($n))); )* }; }
+    for_all_r!(push);
+    v
+}
+
+pub fn insert_sibling(world: &mut World, n: usize, val: u64) {
+    macro_rules! ins { ($($k:literal),*) => { match n { $( $k => world.insert_by_id(ResourceId::new_with_dynamic_id::<R<$k>>(sib_dyn($k)), R::<$k>(val)), )* _ => panic!("rt: bad resource index") } }; }
+    for_all_r!(ins)
+}
+
+pub fn sibling_value(world: &World, n: usize) -> Option<u64> {
+    macro_rules! get { ($($k:literal),*) => { match n { $( $k => world.try_fetch_by_id::<R<$k>>(ResourceId::new_with_dynamic_id::<R<$k>>(sib_dyn($k))).map(|g| g.0), )* _ => panic!("rt: bad resource index") } }; }
+    for_all_r!(get)
+}
+
+/// which siblings exist under presence mask `mask` (a different subset than the typed resources)
+pub fn sib_present(mask: u64, n: usize) -> bool {
+    (mask >> ((n * 7 + 3) % NR)) & 1 == 1
+}
+
 pub fn insert(world: &mut World, n: usize, val: u64) {
     macro_rules! ins { ($($k:literal),*) => { match n { $( $k => world.insert(R::<$k>(val)), )* _ => panic!("rt: bad resource index") } }; }
     for_all_r!(ins)
@@ -144,22 +176,46 @@ pub fn check_type(
     for &mask in e.masks {
         let present = |n: usize| mask & (1u64 << n) != 0;
         let mut world = World::empty();
+        // siblings first for even n, after the typed resource for odd n (insertion order matters to
+        // hash-table probe order)
         for n in 0..NR {
+            if n % 2 == 0 && sib_present(mask, n) {
+                insert_sibling(&mut world, n, 555_000 + n as u64);
+            }
             if present(n) {
                 insert(&mut world, n, 7000 + n as u64);
             }
+            if n % 2 == 1 && sib_present(mask, n) {
+                insert_sibling(&mut world, n, 555_000 + n as u64);
+            }
         }
+        let sibs = sib_ids();
         let must_panic = e
             .reads
             .iter()
             .chain(e.writes.iter())
             .any(|n| !present(*n) && !e.optional.contains(n));
         let mut during: Option<Vec<Cell>> = None;
+        let mut sib_during: Option<Vec<Cell>> = None;
         let r = catch_unwind(AssertUnwindSafe(|| {
-            fetch(&world, &mut || during = Some(classify(&world, &all)));
+            fetch(&world, &mut || {
+                during = Some(classify(&world, &all));
+                sib_during = Some(classify(&world, &sibs));
+            });
         }));
         rep.fetches += 1;
         let after = classify(&world, &all);
+        for (which, cells) in [("after the value was dropped (or the fetch panicked)", Some(classify(&world, &sibs))), ("while the fetched value is alive", sib_during)] {
+            if let Some(cells) = cells {
+                for n in 0..NR {
+                    let want = if sib_present(mask, n) { Cell::Free } else { Cell::Absent };
+                    if cells[n] != want {
+                        rep.fail(e, format!("presence mask {:#x}: {} the resource of type R<{}> under dynamic id {:#x} (which no typed accessor names) is {:?}, expected {:?}", mask, which, n, sib_dyn(n), cells[n], want));
+                        return;
+                    }
+                }
+            }
+        }
         for n in 0..NR {
             let want = if present(n) { Cell::Free } else { Cell::Absent };
             if after[n] != want {
@@ -246,8 +302,14 @@ pub fn check_type(
         let present = |n: usize| mask & (1u64 << n) != 0;
         let mut world = World::empty();
         for n in 0..NR {
+            if n % 2 == 0 && sib_present(mask, n) {
+                insert_sibling(&mut world, n, 666_000 + n as u64);
+            }
             if present(n) {
                 insert(&mut world, n, 9000 + n as u64);
+            }
+            if n % 2 == 1 && sib_present(mask, n) {
+                insert_sibling(&mut world, n, 666_000 + n as u64);
             }
         }
         HLOG.with(|l| l.borrow_mut().clear());
@@ -271,6 +333,12 @@ pub fn check_type(
             };
             if v != want {
                 rep.fail(e, format!("presence mask {:#x}: after setup resource {} is {:?}, expected {:?} (pre-existing values untouched, default-provided ones created, nothing else)", mask, n, v, want));
+                return;
+            }
+            let sv = sibling_value(&world, n);
+            let swant = if sib_present(mask, n) { Some(666_000 + n as u64) } else { None };
+            if sv != swant {
+                rep.fail(e, format!("presence mask {:#x}: after setup the resource of type R<{}> under dynamic id {:#x} is {:?}, expected {:?} (setup concerns dynamic id 0 only)", mask, n, sib_dyn(n), sv, swant));
                 return;
             }
         }
